@@ -220,3 +220,23 @@ func (m *pbfModel) registeredClasses(o types.Object, seen map[types.Object]bool)
 	})
 	return out
 }
+
+// isWorkerChanSlice reports whether e is the decoder's slice of per-worker channels (or of lanes holding them),
+// possibly re-sliced (`dec.outputs[:n]`): it has one element per worker, so it is never empty once the pipeline runs.
+func (m *pbfModel) isWorkerChanSlice(e ast.Expr) bool {
+	e = ast.Unparen(e)
+	if se, ok := e.(*ast.SliceExpr); ok {
+		if se.Low != nil {
+			if v, isC := constInt(m.info, se.Low); !isC || v != 0 {
+				return false
+			}
+		}
+		e = ast.Unparen(se.X)
+	}
+	f := fieldOf(m.info, e)
+	if f == nil || namedPath(selRecv(m.info, e)) != namedPath(m.decoderT) {
+		return false
+	}
+	in, out, _ := m.pipelineClasses()
+	return f == m.slotOf(in).slice || f == m.slotOf(out).slice
+}
